@@ -63,11 +63,15 @@ Lemma pop_front_push_back l x : l <> [] ->
   pop_front (push_back l x) = (fst (pop_front l), push_back (snd (pop_front l)) x).
 Proof. destruct l; [congruence | reflexivity]. Qed.
 
+Lemma last_default (l : list item) a b : l <> [] -> last l a = last l b.
+Proof. induction l as [|y [|z l] IH]; intros H; [congruence | reflexivity |]. apply IH. discriminate. Qed.
+
 Lemma pop_back_push_front l x : l <> [] ->
   pop_back (push_front l x) = (fst (pop_back l), push_front (snd (pop_back l)) x).
 Proof.
   destruct l as [|y l]; [congruence|]. intros _. unfold pop_back, push_front.
-  cbn [fst snd]. f_equal. f_equal. cbn [last]. destruct l; reflexivity.
+  cbn [fst snd]. f_equal. f_equal. change (last (x :: y :: l) x) with (last (y :: l) x).
+  apply last_default. discriminate.
 Qed.
 
 Lemma pop_back_spec l : l <> [] ->
@@ -120,14 +124,14 @@ Qed.
 
 Lemma skip_ge_fst x l : Forall (fun e => prio x <= prio e) (fst (skip_ge x l)).
 Proof.
-  induction l as [|e l IH]; cbn [skip_ge]; auto.
-  destruct (higher x e) eqn:E; cbn; auto. destruct (skip_ge x l). cbn [fst] in *.
+  induction l as [|e l IH]; cbn [skip_ge]; [cbn; auto|].
+  destruct (higher x e) eqn:E; [cbn; auto|]. destruct (skip_ge x l). cbn [fst] in *.
   constructor; auto. cmp. lia.
 Qed.
 
 Lemma skip_ge_snd x l : match snd (skip_ge x l) with [] => True | e :: _ => prio e < prio x end.
 Proof.
-  induction l as [|e l IH]; cbn [skip_ge]; auto.
+  induction l as [|e l IH]; cbn [skip_ge]; [cbn; auto|].
   destruct (higher x e) eqn:E; cbn [snd]; [cmp; lia|]. now destruct (skip_ge x l).
 Qed.
 
@@ -252,30 +256,30 @@ Proof.
   intros Hd. destruct (ins_fwd_spec l x) as [l1 [l2 [H [-> [H1 H2]]]]]. subst l.
   specialize (H2 Hd). rewrite !withp_app. cbn [withp filter].
   destruct (prio x =? v) eqn:E.
-  - rewrite (withp_none_lt v l2 x) by (auto; lia). now rewrite app_nil_r.
+  - fold (withp v l2). rewrite (withp_none_lt v l2 x) by (auto; lia). now rewrite app_nil_r.
   - fold (withp v l2). now rewrite app_nil_r.
 Qed.
 
 (* ------------------------------------------------------------------ chain_sorted *)
+Lemma chain_step_perm x pre1 suf1 tl :
+  Permutation ((pre1 ++ fst (skip_ge x suf1)) ++ x :: snd (skip_ge x suf1) ++ tl) ((pre1 ++ suf1) ++ x :: tl).
+Proof.
+  rewrite (skip_ge_app x suf1) at 3. rewrite <- !app_assoc.
+  do 2 apply Permutation_app_head. apply Permutation_middle.
+Qed.
+
 Lemma chain_go_perm items : forall pre p post,
   Permutation (chain_go pre p post items) (pre ++ p :: post ++ items).
 Proof.
   induction items as [|x items IH]; intros pre p post; cbn [chain_go].
   - now rewrite app_nil_r.
   - destruct (higher x p).
-    + pose proof (skip_ge_app x (pre ++ p :: post)) as Hs. destruct (skip_ge x (pre ++ p :: post)) as [sk rest].
-      cbn [fst snd] in Hs. rewrite IH. cbn [app].
-      transitivity (x :: (sk ++ rest) ++ items).
-      * rewrite <- app_assoc. symmetry. rewrite app_comm_cons. apply Permutation_middle.
-      * rewrite <- Hs. rewrite <- app_assoc. cbn [app].
-        symmetry. rewrite app_comm_cons, app_assoc. apply Permutation_middle.
-    + pose proof (skip_ge_app x (p :: post)) as Hs. destruct (skip_ge x (p :: post)) as [sk rest].
-      cbn [fst snd] in Hs. rewrite IH.
-      transitivity (x :: pre ++ (sk ++ rest) ++ items).
-      * rewrite <- !app_assoc. symmetry. rewrite (app_assoc pre sk). apply Permutation_middle.
-      * rewrite <- Hs. cbn [app]. symmetry.
-        change (pre ++ p :: post ++ x :: items) with (pre ++ (p :: post) ++ x :: items).
-        rewrite !app_assoc. apply Permutation_middle.
+    + pose proof (chain_step_perm x [] (pre ++ p :: post) items) as H.
+      destruct (skip_ge x (pre ++ p :: post)) as [sk rest]. cbn [fst snd] in H.
+      rewrite IH, H. cbn [app]. now rewrite <- app_assoc.
+    + pose proof (chain_step_perm x pre (p :: post) items) as H.
+      destruct (skip_ge x (p :: post)) as [sk rest]. cbn [fst snd] in H.
+      rewrite IH, H. now rewrite <- app_assoc.
 Qed.
 
 Lemma chain_sorted_perm l items : Permutation (chain_sorted l items) (l ++ items).
@@ -284,8 +288,9 @@ Proof.
   destruct l as [|h t].
   - rewrite chain_go_perm. reflexivity.
   - rewrite chain_go_perm. cbn [app].
-    rewrite (app_removelast_last h (l := h :: t)) at 3 by discriminate.
-    now rewrite <- app_assoc.
+    replace (removelast (h :: t) ++ last (h :: t) h :: x :: items)
+      with ((removelast (h :: t) ++ [last (h :: t) h]) ++ x :: items) by (now rewrite <- app_assoc).
+    now rewrite <- app_removelast_last by discriminate.
 Qed.
 
 Lemma chain_go_fold items : forall pre p post, desc (pre ++ p :: post) ->
@@ -414,7 +419,8 @@ Fixpoint merge_pairs (rs : list (list item)) : list (list item) :=
 Lemma pairs_ind (P : list (list item) -> Prop) :
   P [] -> (forall a, P [a]) -> (forall a b rest, P rest -> P (a :: b :: rest)) -> forall rs, P rs.
 Proof.
-  intros H0 H1 H2. fix IH 1. intros [|a [|b rest]]; auto.
+  intros H0 H1 H2. fix IH 1.
+  intros [|a [|b rest]]; [exact H0 | exact (H1 a) | exact (H2 a b rest (IH rest))].
 Qed.
 
 (* all runs have k items except the last, which has between 1 and k *)
@@ -456,27 +462,26 @@ Proof.
     cbn [pass]. destruct a as [|x a]; [congruence|].
     rewrite (skipn_all2 (x :: a)) by lia. rewrite skipn_nil, pass_nil, firstn_nil.
     rewrite firstn_all2 by lia. now rewrite merge_nil_r, app_nil_r.
-  - inv Hr. cbn [concat merge_pairs length] in *.
-    assert (Ha : a <> []) by (destruct a; cbn in *; [lia|discriminate]).
-    destruct fuel as [|f]; [destruct a; cbn in *; [congruence|lia]|].
-    cbn [pass]. destruct a as [|x a]; [congruence|]. cbn [app]. rewrite app_comm_cons.
+  - inversion Hr as [| | r rs Hla Hne Hreg]; subst r rs.
+    cbn [concat merge_pairs length] in *.
+    destruct fuel as [|f]; [destruct a; cbn in *; lia|].
+    cbn [pass]. destruct a as [|x a]; [cbn in *; lia|]. cbn [app]. rewrite app_comm_cons.
     set (a' := x :: a) in *.
-    assert (E1 : firstn (length a') (a' ++ b ++ concat rest) = a').
-    { rewrite firstn_app, Nat.sub_diag, firstn_O, app_nil_r. apply firstn_all. }
-    assert (E2 : skipn (length a') (a' ++ b ++ concat rest) = b ++ concat rest).
-    { rewrite skipn_app, Nat.sub_diag, skipn_all. reflexivity. }
+    assert (E1 : firstn k (a' ++ b ++ concat rest) = a').
+    { rewrite <- Hla, firstn_app, Nat.sub_diag, firstn_O, app_nil_r. apply firstn_all. }
+    assert (E2 : skipn k (a' ++ b ++ concat rest) = b ++ concat rest).
+    { rewrite <- Hla, skipn_app, Nat.sub_diag, skipn_all. reflexivity. }
     rewrite E1, E2.
-    assert (Hb : firstn (length a') (b ++ concat rest) = b /\ skipn (length a') (b ++ concat rest) = concat rest).
-    { inv H3.
-      - cbn [concat]. rewrite !app_nil_r. split; [apply firstn_all2; lia | apply skipn_all2; lia].
-      - rewrite H2. split.
-        + rewrite firstn_app, Nat.sub_diag, firstn_O, app_nil_r. apply firstn_all.
-        + rewrite skipn_app, Nat.sub_diag, skipn_all. reflexivity. }
-    destruct Hb as [-> ->].
-    rewrite IH.
-    + reflexivity.
-    + inv H3; [constructor | auto].
-    + subst a'. rewrite !app_length in Hf. cbn [length] in Hf. lia.
+    assert (Hb : firstn k (b ++ concat rest) = b /\ skipn k (b ++ concat rest) = concat rest /\ regular k rest).
+    { inversion Hreg as [| r Hbne Hlb Hr0 | r rs Hlb Hne' Hreg' Hr0].
+      - subst r rest. cbn [concat]. rewrite !app_nil_r.
+        repeat split; [apply firstn_all2; lia | apply skipn_all2; lia | constructor].
+      - subst r rs. repeat split; auto.
+        + rewrite <- Hlb, firstn_app, Nat.sub_diag, firstn_O, app_nil_r. apply firstn_all.
+        + rewrite <- Hlb, skipn_app, Nat.sub_diag, skipn_all. reflexivity. }
+    destruct Hb as [-> [-> Hreg']].
+    rewrite IH; auto.
+    rewrite !app_length in Hf. subst a'. cbn [length] in *. lia.
 Qed.
 
 (* an invariant of the runs preserved by pairwise merging holds of the final single run *)
@@ -501,7 +506,7 @@ Qed.
 
 Definition singles (l : list item) : list (list item) := map (fun x => [x]) l.
 Lemma concat_singles l : concat (singles l) = l.
-Proof. induction l; cbn; congruence. Qed.
+Proof. unfold singles. induction l as [|x l IH]; cbn [map concat app]; congruence. Qed.
 Lemma regular_singles l : regular 1 (singles l).
 Proof.
   induction l as [|x [|y l] IH]; cbn [singles map] in *; [constructor | constructor; [discriminate | auto] |].
@@ -525,11 +530,363 @@ Definition runs_ok (l : list item) (rs : list (list item)) : Prop :=
   Forall asc rs /\ Permutation (concat rs) l /\
   forall v, flat_map (fun r => rev (withp v r)) rs = withp v l.
 
+Lemma merge_pairs_asc rs : Forall asc rs -> Forall asc (merge_pairs rs).
+Proof.
+  induction rs as [| a | a b rest IH] using pairs_ind; cbn [merge_pairs]; auto.
+  intros H. inv H. inv H3. constructor; auto. now apply merge_asc.
+Qed.
+
+Lemma merge_pairs_perm rs : Permutation (concat (merge_pairs rs)) (concat rs).
+Proof.
+  induction rs as [| a | a b rest IH] using pairs_ind; cbn [merge_pairs concat]; auto.
+  rewrite IH, merge_perm. now rewrite app_assoc.
+Qed.
+
+Lemma merge_pairs_withp v rs : Forall asc rs ->
+  flat_map (fun r => rev (withp v r)) (merge_pairs rs) = flat_map (fun r => rev (withp v r)) rs.
+Proof.
+  induction rs as [| a | a b rest IH] using pairs_ind; cbn [merge_pairs flat_map]; auto.
+  intros H. inv H. inv H3. rewrite IH by auto. rewrite merge_withp by auto.
+  now rewrite rev_app_distr, app_assoc.
+Qed.
+
 Lemma runs_ok_merge_pairs l rs : runs_ok l rs -> runs_ok l (merge_pairs rs).
 Proof.
-  unfold runs_ok. induction rs as [| a | a b rest IH] using pairs_ind in l |- *; cbn [merge_pairs]; auto.
-  intros [Hs [Hp Hw]]. inv Hs. inv H2.
-  cbn [concat flat_map] in *.
-  assert (Hrest : runs_ok (concat rest) rest).
-  { repeat split; auto. intros v. clear. induction rest as [|r rest IHr]; cbn; auto.
-    unfold withp in *. rewrite filter_app. rewrite <- IHr. f_equal. Abort.
+  intros [Hs [Hp Hw]]. split; [now apply merge_pairs_asc|]. split.
+  - now rewrite merge_pairs_perm.
+  - intros v. rewrite merge_pairs_withp by auto. apply Hw.
+Qed.
+
+Lemma runs_ok_singles l : runs_ok l (singles l).
+Proof.
+  split; [|split].
+  - unfold singles. apply Forall_map, Forall_forall. intros x _. cbn. auto.
+  - now rewrite concat_singles.
+  - intros v. unfold singles. induction l as [|x l IH]; [reflexivity|].
+    cbn [map flat_map]. rewrite IH. cbn [withp filter]. now destruct (prio x =? v).
+Qed.
+
+Lemma sort_ok l : asc (sort l) /\ Permutation (sort l) l /\ forall v, withp v (sort l) = rev (withp v l).
+Proof.
+  destruct l as [|x l]; [cbn; auto|].
+  destruct (sort_inv (runs_ok (x :: l)) (x :: l)) as [Hs [Hp Hw]].
+  - apply runs_ok_merge_pairs.
+  - discriminate.
+  - apply runs_ok_singles.
+  - inv Hs. cbn [concat flat_map] in *. rewrite app_nil_r in *. repeat split; auto.
+    intros v. specialize (Hw v). rewrite app_nil_r in Hw. rewrite <- Hw. now rewrite rev_involutive.
+Qed.
+
+(* a non-decreasing list is determined by its items of each priority *)
+Lemma withp_in v l x : In x (withp v l) <-> In x l /\ prio x = v.
+Proof. unfold withp. rewrite filter_In. split; intros [H1 H2]; split; auto; lia. Qed.
+
+Lemma asc_determined r1 : forall r2, asc r1 -> asc r2 -> (forall v, withp v r1 = withp v r2) -> r1 = r2.
+Proof.
+  induction r1 as [|a r1 IH]; intros r2 H1 H2 Hw.
+  - destruct r2 as [|b r2]; auto. specialize (Hw (prio b)). cbn in Hw. rewrite Z.eqb_refl in Hw. discriminate.
+  - destruct r2 as [|b r2].
+    { specialize (Hw (prio a)). cbn in Hw. rewrite Z.eqb_refl in Hw. discriminate. }
+    cbn [asc] in H1, H2. destruct H1 as [Hf1 H1], H2 as [Hf2 H2].
+    assert (Hab : prio a = prio b).
+    { destruct (Z.lt_trichotomy (prio a) (prio b)) as [Hlt | [Heq | Hgt]]; auto; exfalso.
+      - assert (Hin : In a (withp (prio a) (b :: r2))).
+        { rewrite <- Hw. apply withp_in. split; [left|]; auto. }
+        apply withp_in in Hin. destruct Hin as [[<- | Hin] _]; [lia|].
+        rewrite Forall_forall in Hf2. specialize (Hf2 a Hin). cbn beta in Hf2. lia.
+      - assert (Hin : In b (withp (prio b) (a :: r1))).
+        { rewrite Hw. apply withp_in. split; [left|]; auto. }
+        apply withp_in in Hin. destruct Hin as [[<- | Hin] _]; [lia|].
+        rewrite Forall_forall in Hf1. specialize (Hf1 b Hin). cbn beta in Hf1. lia. }
+    pose proof (Hw (prio a)) as Hwa. cbn [withp filter] in Hwa.
+    rewrite Z.eqb_refl in Hwa. rewrite <- Hab, Z.eqb_refl in Hwa. inv Hwa.
+    f_equal. apply IH; auto. intros v. specialize (Hw v). cbn [withp filter] in Hw.
+    fold (withp v r1) (withp v r2) in Hw. destruct (prio b =? v); congruence.
+Qed.
+
+Lemma withp_rev v l : withp v (rev l) = rev (withp v l).
+Proof.
+  induction l as [|x l IH]; cbn [rev]; auto. rewrite withp_app, IH. cbn [withp filter].
+  destruct (prio x =? v); cbn [rev]; auto. now rewrite app_nil_r.
+Qed.
+
+(* the merge sort returns exactly the reverse of the stable non-increasing sort that
+   chain_sorted performs on an empty list *)
+Lemma sort_rev_chain_sorted l : sort l = rev (chain_sorted [] l).
+Proof.
+  destruct (sort_ok l) as [Ha [_ Hw]]. apply asc_determined; auto.
+  - apply asc_rev. apply chain_sorted_desc. cbn; auto.
+  - intros v. rewrite Hw, withp_rev. f_equal. rewrite chain_sorted_stable by (cbn; auto). reflexivity.
+Qed.
+
+(* ------------------------------------------------------------------ rings *)
+Lemma rins_spec l x : exists l1 l2, l = l1 ++ l2 /\ rins l x = l1 ++ x :: l2 /\
+  Forall (fun e => prio x < prio e) l1 /\ (desc l -> Forall (fun e => prio e <= prio x) l2).
+Proof.
+  induction l as [|e l IH]; cbn [rins].
+  - exists [], []. repeat split; auto.
+  - destruct (lower x e) eqn:E.
+    + destruct IH as [l1 [l2 [-> [-> [H1 H2]]]]]. exists (e :: l1), l2. repeat split; auto.
+      * constructor; auto. cmp. lia.
+      * intros Hd. apply H2. cbn [desc] in Hd. tauto.
+    + exists [], (e :: l). repeat split; auto. intros [Hf _]. constructor; [cmp; lia|].
+      eapply Forall_impl; [|apply Hf]. intros; cbn beta in *. cmp. lia.
+Qed.
+
+Lemma rins_desc l x : desc l -> desc (rins l x).
+Proof.
+  intros Hd. destruct (rins_spec l x) as [l1 [l2 [H [-> [H1 H2]]]]]. subst l.
+  apply desc_insert; auto. eapply Forall_impl; [|apply H1]. intros; cbn beta in *; lia.
+Qed.
+
+Lemma rins_perm l x : Permutation (rins l x) (x :: l).
+Proof. destruct (rins_spec l x) as [l1 [l2 [-> [-> _]]]]. symmetry. apply Permutation_middle. Qed.
+
+(* ------------------------------------------------------------------ remove / add *)
+Lemma nth_error_split_at (l : list item) k x : nth_error l k = Some x ->
+  l = firstn k l ++ x :: skipn (S k) l.
+Proof.
+  revert k. induction l as [|y l IH]; intros [|k] H; cbn in *; try discriminate.
+  - now inv H.
+  - f_equal. now apply IH.
+Qed.
+
+Lemma remove_at_perm k l : match fst (remove_at k l) with
+  | None => snd (remove_at k l) = l
+  | Some (x, _) => Permutation l (x :: snd (remove_at k l)) end.
+Proof.
+  unfold remove_at. destruct (nth_error l k) eqn:E; cbn [fst snd]; auto.
+  rewrite (nth_error_split_at l k i E) at 1. symmetry. apply Permutation_middle.
+Qed.
+
+Lemma desc_sub a b c : desc (a ++ b ++ c) -> desc (a ++ c).
+Proof.
+  rewrite !desc_app. intros [Ha [[Hb [Hc _]] Hf]]. repeat split; auto.
+  eapply Forall_impl; [|apply Hf]. intros x Hx. cbn beta in Hx. rewrite Forall_app in Hx. tauto.
+Qed.
+
+Lemma remove_at_desc k l : desc l -> desc (snd (remove_at k l)).
+Proof.
+  unfold remove_at. destruct (nth_error l k) eqn:E; cbn [snd]; auto.
+  intros Hd. rewrite (nth_error_split_at l k i E) in Hd.
+  change (i :: skipn (S k) l) with ([i] ++ skipn (S k) l) in Hd. now apply desc_sub in Hd.
+Qed.
+
+Lemma add_before_perm k l x : Permutation (add_before k l x) (x :: l).
+Proof.
+  unfold add_before. rewrite <- (firstn_skipn k l) at 3. symmetry. apply Permutation_middle.
+Qed.
+Lemma add_after_perm k l x : Permutation (add_after k l x) (x :: l).
+Proof.
+  unfold add_after. destruct (k <? length l)%nat; auto.
+  rewrite <- (firstn_skipn (S k) l) at 3. symmetry. apply Permutation_middle.
+Qed.
+
+Lemma pop_front_desc l : desc l -> desc (snd (pop_front l)).
+Proof. destruct l; cbn; tauto. Qed.
+Lemma pop_back_desc l : desc l -> desc (snd (pop_back l)).
+Proof.
+  destruct l as [|y l]; [cbn; auto|]. intros Hd.
+  destruct (pop_back_spec (y :: l)) as [x [l' [E Hl]]]; [discriminate|]. rewrite E. cbn [snd].
+  rewrite Hl, desc_app in Hd. tauto.
+Qed.
+
+(* ------------------------------------------------------------------ operation sequences *)
+Lemma list_op_conserves s L v ins outs : Permutation (getl s L ++ ins) (v ++ outs) ->
+  Permutation (contents s ++ ins) (contents (setl s L v) ++ outs).
+Proof.
+  intros H. unfold contents, setl, getl in *. destruct L; cbn [l0 l1 ring].
+  - rewrite <- !app_assoc. apply Permutation_app_head.
+    rewrite (Permutation_app_comm (ring s)), (Permutation_app_comm (ring s) outs), !app_assoc.
+    now apply Permutation_app_tail.
+  - rewrite (Permutation_app_comm _ ins), (Permutation_app_comm _ outs), !app_assoc.
+    do 2 apply Permutation_app_tail. now rewrite (Permutation_app_comm ins), (Permutation_app_comm outs).
+Qed.
+
+Lemma ring_op_conserves s v ins outs : Permutation (ring s ++ ins) (v ++ outs) ->
+  Permutation (contents s ++ ins) (contents (setr s v) ++ outs).
+Proof.
+  intros H. unfold contents, setr. cbn [l0 l1 ring]. rewrite <- !app_assoc.
+  now do 2 apply Permutation_app_head.
+Qed.
+
+Lemma both_op_conserves s L v r' : Permutation (getl s L ++ ring s) (v ++ r') ->
+  Permutation (contents s ++ []) (contents (setr (setl s L v) r') ++ []).
+Proof.
+  intros H. rewrite !app_nil_r. unfold contents, setr, setl, getl in *. destruct L; cbn [l0 l1 ring].
+  - now apply Permutation_app_head.
+  - rewrite Permutation_app_swap_app, H. apply Permutation_app_swap_app.
+Qed.
+
+(* one operation: what was there plus what came in = what is there plus what went out *)
+Lemma step_conserves s o : Permutation (contents s ++ op_in o) (contents (fst (step s o)) ++ ret_out (snd (step s o))).
+Proof.
+  destruct o; cbn [step op_in].
+  - (* PushFront *) apply list_op_conserves. unfold push_front. rewrite app_nil_r. symmetry. apply Permutation_cons_append.
+  - (* PushBack *) apply list_op_conserves. unfold push_back. now rewrite app_nil_r.
+  - (* PopFront *) destruct (getl s L) as [|x t] eqn:E; cbn [pop_front fst snd of_opt ret_out];
+      apply list_op_conserves; rewrite E, app_nil_r; [reflexivity | apply Permutation_cons_append].
+  - (* PopBack *) destruct (getl s L) as [|y t] eqn:E.
+    + cbn [pop_back fst snd of_opt ret_out]. apply list_op_conserves. now rewrite E.
+    + destruct (pop_back_spec (y :: t)) as [x [l' [Ep Hl]]]; [discriminate|]. rewrite Ep.
+      cbn [fst snd of_opt ret_out]. apply list_op_conserves. now rewrite E, Hl, app_nil_r.
+  - (* ChainFront *) apply list_op_conserves. unfold chain_front. rewrite app_nil_r. apply Permutation_app_comm.
+  - (* ChainBack *) apply list_op_conserves. unfold chain_back. now rewrite app_nil_r.
+  - (* PushSorted *) apply list_op_conserves. rewrite app_nil_r, push_sorted_perm. symmetry. apply Permutation_cons_append.
+  - (* ChainSorted *) apply list_op_conserves. now rewrite app_nil_r, chain_sorted_perm.
+  - (* Sort *) apply list_op_conserves. rewrite !app_nil_r. symmetry. apply sort_ok.
+  - (* Remove *) pose proof (remove_at_perm k (getl s L)) as H.
+    destruct (remove_at k (getl s L)) as [[[x p]|] l']; cbn [fst snd ret_out] in *; apply list_op_conserves.
+    + rewrite app_nil_r, H. apply Permutation_cons_append.
+    + now subst l'.
+  - (* AddBefore *) apply list_op_conserves. rewrite app_nil_r, add_before_perm. symmetry. apply Permutation_cons_append.
+  - (* AddAfter *) apply list_op_conserves. rewrite app_nil_r, add_after_perm. symmetry. apply Permutation_cons_append.
+  - (* IsEmpty *) reflexivity.
+  - (* Contains *) reflexivity.
+  - (* Unchain *) cbn [unchain fst snd ret_out]. apply both_op_conserves. unfold ring_merge. cbn [app]. apply Permutation_app_comm.
+  - (* RingPush *) apply ring_op_conserves. unfold ring_push. now rewrite app_nil_r.
+  - (* RingPushSorted *) apply ring_op_conserves. rewrite app_nil_r, rins_perm. symmetry. apply Permutation_cons_append.
+  - (* RingChop *) destruct (ring s) as [|x t] eqn:E; cbn [ring_chop fst snd of_opt ret_out];
+      apply ring_op_conserves; rewrite E, app_nil_r; [reflexivity | apply Permutation_cons_append].
+  - (* RingMerge *) apply ring_op_conserves. unfold ring_merge. now rewrite app_nil_r.
+  - (* ChainRingFront *) cbn [fst snd ret_out]. apply both_op_conserves. unfold chain_front. rewrite app_nil_r. apply Permutation_app_comm.
+  - (* ChainRingBack *) cbn [fst snd ret_out]. apply both_op_conserves. unfold chain_back. now rewrite app_nil_r.
+  - (* ChainRingSorted *) cbn [fst snd ret_out]. apply both_op_conserves. now rewrite app_nil_r, chain_sorted_perm.
+Qed.
+
+Lemma run_conserves ops : forall s,
+  Permutation (contents s ++ flat_map op_in ops)
+              (contents (fst (run s ops)) ++ flat_map ret_out (snd (run s ops))).
+Proof.
+  induction ops as [|o ops IH]; intros s; cbn [run flat_map fst snd]; auto.
+  pose proof (step_conserves s o) as Hs. destruct (step s o) as [s1 r]. cbn [fst snd] in Hs.
+  specialize (IH s1). destruct (run s1 ops) as [s2 rs]. cbn [fst snd flat_map] in *.
+  rewrite app_assoc, Hs, <- app_assoc.
+  rewrite (Permutation_app_comm (ret_out r)), app_assoc, IH, <- app_assoc.
+  apply Permutation_app_head, Permutation_app_comm.
+Qed.
+
+Lemma run_no_dup ops s :
+  NoDup (map iid (contents s ++ flat_map op_in ops)) ->
+  NoDup (map iid (contents (fst (run s ops)) ++ flat_map ret_out (snd (run s ops)))).
+Proof. apply Permutation_NoDup, Permutation_map, run_conserves. Qed.
+
+(* sequences of order-preserving operations keep both lists and the ring non-increasing *)
+Definition all_sorted (s : state) : Prop := desc (l0 s) /\ desc (l1 s) /\ desc (ring s).
+
+Lemma all_sorted_setl s L v : all_sorted s -> desc v -> all_sorted (setl s L v).
+Proof. unfold all_sorted, setl. destruct L; cbn [l0 l1 ring]; tauto. Qed.
+Lemma all_sorted_setr s v : all_sorted s -> desc v -> all_sorted (setr s v).
+Proof. unfold all_sorted, setr. cbn [l0 l1 ring]; tauto. Qed.
+Lemma all_sorted_getl s L : all_sorted s -> desc (getl s L).
+Proof. unfold all_sorted, getl. destruct L; tauto. Qed.
+
+Lemma step_sorted s o : keeps_sorted o = true -> keeps_ring_sorted o = true ->
+  all_sorted s -> all_sorted (fst (step s o)).
+Proof.
+  intros K1 K2 Hs. pose proof Hs as [H0 [H1 Hr]].
+  destruct o; try discriminate; cbn [step fst]; auto.
+  - (* PopFront *) pose proof (pop_front_desc _ (all_sorted_getl s L Hs)).
+    destruct (pop_front (getl s L)). cbn [fst snd] in *. now apply all_sorted_setl.
+  - (* PopBack *) pose proof (pop_back_desc _ (all_sorted_getl s L Hs)).
+    destruct (pop_back (getl s L)). cbn [fst snd] in *. now apply all_sorted_setl.
+  - apply all_sorted_setl; auto. apply push_sorted_desc, all_sorted_getl, Hs.
+  - apply all_sorted_setl; auto. apply chain_sorted_desc, all_sorted_getl, Hs.
+  - (* Remove *) pose proof (remove_at_desc k _ (all_sorted_getl s L Hs)).
+    destruct (remove_at k (getl s L)). cbn [fst snd] in *. now apply all_sorted_setl.
+  - apply all_sorted_setr; auto. now apply rins_desc.
+  - (* RingChop *) destruct (ring s) as [|x t] eqn:E; cbn [ring_chop fst]; apply all_sorted_setr; auto.
+    cbn [desc] in Hr. tauto.
+  - (* ChainRingSorted *) apply all_sorted_setr; [|cbn; auto].
+    apply all_sorted_setl; auto. apply chain_sorted_desc, all_sorted_getl, Hs.
+Qed.
+
+Lemma run_sorted ops : forall s,
+  Forall (fun o => keeps_sorted o = true /\ keeps_ring_sorted o = true) ops ->
+  all_sorted s -> all_sorted (fst (run s ops)).
+Proof.
+  induction ops as [|o ops IH]; intros s Hf Hs; cbn [run fst]; auto. inv Hf.
+  pose proof (step_sorted s o (proj1 H1) (proj2 H1) Hs) as H.
+  destruct (step s o) as [s1 r]. cbn [fst] in H. specialize (IH s1 H2 H).
+  destruct (run s1 ops). auto.
+Qed.
+
+Lemma pop_front_max l x l' : desc l -> pop_front l = (Some x, l') ->
+  l = x :: l' /\ Forall (fun e => prio e <= prio x) l'.
+Proof. destruct l; cbn; intros H E; inv E. tauto. Qed.
+
+(* ------------------------------------------------------------------ statements used by Properties_C31.v *)
+Lemma deque_laws l x xs :
+  pop_front (push_front l x) = (Some x, l) /\
+  pop_back (push_back l x) = (Some x, l) /\
+  (l <> [] -> pop_front (push_back l x) = (fst (pop_front l), push_back (snd (pop_front l)) x)) /\
+  (l <> [] -> pop_back (push_front l x) = (fst (pop_back l), push_front (snd (pop_back l)) x)) /\
+  pop_front [] = (None, []) /\ pop_back [] = (None, []) /\
+  chain_back l xs = fold_left push_back xs l /\
+  chain_front l xs = fold_right (fun y l => push_front l y) l xs /\
+  unchain l = (l, []).
+Proof.
+  repeat split.
+  - apply pop_back_push_back.
+  - apply pop_front_push_back.
+  - apply pop_back_push_front.
+  - apply chain_back_is_pushes.
+  - apply chain_front_is_pushes.
+Qed.
+
+Lemma push_sorted_placement_full l x :
+  (exists l1 l2, l = l1 ++ l2 /\ push_sorted l x = l1 ++ x :: l2) /\
+  (desc l -> exists l1 l2, l = l1 ++ l2 /\ push_sorted l x = l1 ++ x :: l2 /\
+     Forall (fun e => prio x <= prio e) l1 /\ Forall (fun e => prio e < prio x) l2).
+Proof. split; [apply push_sorted_any | apply push_sorted_placement]. Qed.
+
+Lemma push_sorted_sorted l x : desc l ->
+  desc (push_sorted l x) /\ Permutation (push_sorted l x) (x :: l) /\
+  forall v, withp v (push_sorted l x) = withp v l ++ (if prio x =? v then [x] else []).
+Proof.
+  intros Hd. split; [now apply push_sorted_desc|]. split; [apply push_sorted_perm|].
+  intros v. rewrite push_sorted_desc_eq by auto. now apply ins_fwd_withp.
+Qed.
+
+Lemma fold_push_sorted items : forall l, desc l -> fold_left push_sorted items l = fold_left ins_fwd items l.
+Proof.
+  induction items as [|x items IH]; intros l Hd; cbn [fold_left]; auto.
+  rewrite push_sorted_desc_eq by auto. apply IH, ins_fwd_desc, Hd.
+Qed.
+
+Lemma chain_sorted_sorted l items : desc l ->
+  chain_sorted l items = fold_left push_sorted items l /\
+  desc (chain_sorted l items) /\ Permutation (chain_sorted l items) (l ++ items) /\
+  forall v, withp v (chain_sorted l items) = withp v l ++ withp v items.
+Proof.
+  intros Hd. split; [rewrite fold_push_sorted by auto; now apply chain_sorted_fold|].
+  split; [now apply chain_sorted_desc|]. split; [apply chain_sorted_perm|].
+  intros v. now apply chain_sorted_stable.
+Qed.
+
+Lemma desc_head2 a b l : desc (a :: b :: l) -> prio b <= prio a.
+Proof. cbn [desc]. intros [H _]. now inv H. Qed.
+Lemma asc_head2 a b l : asc (a :: b :: l) -> prio a <= prio b.
+Proof. cbn [asc]. intros [H _]. now inv H. Qed.
+
+Lemma sort_not_stable : exists l v, withp v (sort l) <> withp v l.
+Proof. exists [(1, 0); (2, 0)], 0. vm_compute. discriminate. Qed.
+
+(* sort orders the other way round than the sorted insertions: inserting into a list that
+   was just sorted gives a list that is ordered in neither direction *)
+Lemma sort_direction_differs : exists l x,
+  ~ desc (push_sorted (sort l) x) /\ ~ asc (push_sorted (sort l) x).
+Proof.
+  exists [(1, 0); (2, 1)], (3, 1).
+  replace (push_sorted (sort [(1, 0); (2, 1)]) (3, 1)) with [(3, 1); (1, 0); (2, 1)] by (vm_compute; reflexivity).
+  split; intros H.
+  - cbn [desc] in H. destruct H as [_ H]. apply desc_head2 in H. cbn in H. lia.
+  - apply asc_head2 in H. cbn in H. lia.
+Qed.
+
+Lemma ring_push_sorted_ok l x :
+  Permutation (rins l x) (x :: l) /\
+  (exists l1 l2, l = l1 ++ l2 /\ rins l x = l1 ++ x :: l2 /\
+     Forall (fun e => prio x < prio e) l1 /\ (desc l -> Forall (fun e => prio e <= prio x) l2)) /\
+  (desc l -> desc (rins l x)).
+Proof. split; [apply rins_perm|]. split; [apply rins_spec | apply rins_desc]. Qed.
